@@ -217,22 +217,22 @@ PROPS["C13"] = dict(
 PROPS["C19"] = dict(
     pkg="c19", level="fault_enumeration",
     technique="rapid-generated fault time-lines (directory renamed away/restored around real 1 s boundaries and writes) with a conservation oracle over the files after restoration; generated static I/O faults per appender and call path",
-    level_text="Fault enumeration over generated placements: outages of the log directory (rename away / restore) are placed before, across and between real one-second boundaries while 1-4 writers write through the bare rolling appender or a Refresh-built logger; every call must return without panic, after restoration the files must hold every record exactly once, and with one writer a write after the first boundary following restoration must be in a file created at/after it; static faults (closed, never opened, /dev/full, missing directory, failing/short console stream) are driven through Write/Append and log calls under a 10 s watchdog.",
+    level_text="Fault enumeration over generated placements: outages of the log directory (rename away / restore) are placed before, across and between real one-second boundaries while 1-4 writers write through the bare rolling appender or a Refresh-built logger; every call must return without panic, after restoration the files must hold every record exactly once, with one writer a write after the first boundary following restoration must be in a file created at/after it, no file may be named for a boundary that fell into the outage and was followed by a write inside it (creation is retried at the next boundary, not in mid-interval), and no call that began 1.5 s or more before the end of an outage may return only after it; a second generator aims 2-12 spinning goroutines at every boundary of time-lines whose outages cover most boundaries, so that the rotation decision is taken by several callers at once while file creation fails; static faults (closed, never opened, /dev/full, missing directory, failing/short console stream) are driven through Write/Append and log calls under a 10 s watchdog.",
     level_note="Fault placements are generated, not exhaustively enumerated (the space is continuous in time). Outage by rename(2); assumes the wall clock does not step. The retry clause is judged for single-writer time-lines only (with several writers the rotating goroutine's brief window is legitimate).",
-    rule="generated fault time-lines, 6 per case in parallel; static fault x path cases",
+    rule="generated fault time-lines, 6 per case in parallel; boundary-race time-lines (goroutines spinning into every boundary), one per case; static fault x path cases",
     steps=[
         dict(test="^TestC19_Outage$", quick=dict(checks=3, timeout=900, shrink="1s"), thorough=dict(checks=12, shards=8, timeout=3000, shrink="1s")),
         dict(test="^TestC19_Static$", quick=dict(checks=300, timeout=900), thorough=dict(checks=3000, shards=4, timeout=3000)),
-        dict(test="^TestC19_BoundaryRace$", quick=dict(checks=6, timeout=900, shrink="1s"), thorough=dict(checks=12, shards=3, timeout=3000, shrink="1s")),
+        dict(test="^TestC19_BoundaryRace$", quick=dict(checks=6, timeout=900, shrink="1s"), thorough=dict(checks=40, shards=1, timeout=3000, shrink="1s")),
     ],
 )
 
 PROPS["C20"] = dict(
     pkg="c20", level="fault_enumeration",
     technique="rapid-generated crash points: a re-executed child process logs and acknowledges returned calls on a pipe, is SIGKILLed or exits at the K-th acknowledgement, and the parent checks every acknowledged line in the target",
-    level_text="Fault enumeration over generated crash points: for each synchronous appender kind (File, RollingFile, Console on an inherited descriptor; via Logger and via the File/RollingFile/Console logger kinds), both layouts, 1-4 goroutines and N calls, the child is killed (SIGKILL) or exits (status 0/3) right after the K-th acknowledged call; every call acknowledged before death must have its complete self-validating line in the target exactly once.",
+    level_text="Fault enumeration over generated crash points: for each synchronous appender kind (File, RollingFile, Console on an inherited descriptor; via Logger with appender-level or logger-level layout and via the File/RollingFile/Console logger kinds), both layouts, 1-4 goroutines and N calls, the child is killed (SIGKILL) or exits (status 0/3) right after the K-th acknowledged call; every call acknowledged before death must have its complete self-validating line in the target exactly once. Rolling kinds are also run with 2-8 goroutines logging from 4 ms before to 25 ms after a real rotation boundary and the crash after the last call (returned calls reported in one write).",
     level_note="Crash points are sampled from 1..G*N, not all enumerated. Process-crash write-through only (no fsync / power-loss claim). Trusted: the acknowledgement pipe (one direct write(2) per returned call).",
-    rule="generated crash points, 8 children per case",
+    rule="generated crash points (and boundary-straddling runs of the rolling kinds), 8 children per case",
     steps=[
         dict(test="^TestC20_CrashPoints$", quick=dict(checks=40, timeout=900, shrink="5s"), thorough=dict(checks=250, shards=8, timeout=3000, shrink="5s")),
     ],
